@@ -173,7 +173,7 @@ def cmd_run_combos(which):
             assert sh("git -C /repo status --porcelain --untracked-files=no").stdout.strip() == "", "/repo has uncommitted changes"
             try:
                 a1 = sh("git -C /repo apply %s" % rp)
-                a2 = sh("git -C /repo apply -3 %s" % os.path.join(md, "patch.diff")) if a1.returncode == 0 else a1
+                a2 = sh("git -C /repo apply %s" % os.path.join(md, "patch.diff")) if a1.returncode == 0 else a1
                 if a1.returncode != 0 or a2.returncode != 0 or "<<<<<<<" in sh("git -C /repo diff").stdout:
                     continue        # the two changes overlap textually: no combination to test
                 # the combination must still compile
